@@ -259,18 +259,35 @@ func runC15(c *Ctx) {
 					wire[j] &= 1
 				}
 			}
+			mkWire := func() []byte {
+				b := r.Bytes(rows * cd.w)
+				if cd.name == "Bool" {
+					for j := range b {
+						b[j] &= 1
+					}
+				}
+				return b
+			}
+			// three frames in one stream: two columns are decoded first (so the transport buffer holds what follows),
+			// the third one is checked
 			var stream []byte
 			w := compress.NewWriter(compress.LevelZero, m)
-			if w.Compress(wire) != nil {
+			ok := true
+			for _, part := range [][]byte{mkWire(), mkWire(), wire} {
+				if w.Compress(part) != nil {
+					ok = false
+					break
+				}
+				stream = append(stream, w.Data...)
+			}
+			if !ok {
 				continue
 			}
-			stream = append(stream, w.Data...)
-			if w.Compress(r.Bytes(64+rows*cd.w)) != nil {
-				continue
-			}
-			stream = append(stream, w.Data...)
 			rd := proto.NewReader(bytes.NewReader(stream))
 			rd.EnableCompression()
+			if cd.mk().DecodeColumn(rd, rows) != nil || cd.mk().DecodeColumn(rd, rows) != nil {
+				continue
+			}
 			col := cd.mk()
 			var o c15Out
 			var derr error
